@@ -210,14 +210,15 @@ add('k1_handles', 'drain_iter_e3', 'range_iter_h::<E3>(false, false)', props=['C
 
 # ---------------------------------------------------------------------------------------------------
 # C04 runtime type checks
-TYPE_PANIC = [r'assert_types_equal', r'Type mismatch', r'core::panicking::assert_failed_inner']   # assert_eq!(type ids) is the only assert_eq! reachable in these harnesses
-add('k1_types', 'push_mismatch_raw', 'admit_mismatch_raw(true)', props=['C04'], tier='q', kind='panic', attrs=['#[kani::should_panic]'], allow=TYPE_PANIC, cost=5)
-add('k1_types', 'insert_mismatch_raw', 'admit_mismatch_raw(false)', props=['C04'], tier='q', kind='panic', attrs=['#[kani::should_panic]'], allow=TYPE_PANIC, cost=5)
+TSTUB = '#[kani::stub(crate::assert_types_equal, crate::kani_verif::k1_types::obs_assert_types_equal)]'
+TYPE_PANIC = [r'in function assert_types_equal', r'Type mismatch', r'core::panicking::assert_failed_inner']   # assert_eq!(type ids) is the only assert_eq! reachable in these harnesses
+add('k1_types', 'push_mismatch_raw', 'admit_mismatch_raw(true)', props=['C04'], tier='q', kind='panic', attrs=['#[kani::should_panic]', TSTUB], allow=TYPE_PANIC, cost=5)
+add('k1_types', 'insert_mismatch_raw', 'admit_mismatch_raw(false)', props=['C04'], tier='q', kind='panic', attrs=['#[kani::should_panic]', TSTUB], allow=TYPE_PANIC, cost=5)
 for nm, ty in [('u64', 'u64'), ('i64', 'i64'), ('f64', 'f64'), ('a8', '[u8; 8]'), ('u8', 'u8'), ('unit', '()')]:
     add('k1_types', 'insert_mismatch_wrapper_' + nm, 'admit_mismatch_wrapper::<%s>(false, mk_%s)' % (ty, nm), props=['C04'], tier='q' if nm in ('i64', 'a8', 'u8') else 't',
-        kind='panic', attrs=['#[kani::should_panic]'], allow=TYPE_PANIC, cost=5)
+        kind='panic', attrs=['#[kani::should_panic]', TSTUB], allow=TYPE_PANIC, cost=5)
     add('k1_types', 'push_mismatch_wrapper_' + nm, 'admit_mismatch_wrapper::<%s>(true, mk_%s)' % (ty, nm), props=['C04'], tier='q' if nm in ('f64',) else 't',
-        kind='panic', attrs=['#[kani::should_panic]'], allow=TYPE_PANIC, cost=5)
+        kind='panic', attrs=['#[kani::should_panic]', TSTUB], allow=TYPE_PANIC, cost=5)
     add('k1_types', 'downcast_table_' + nm, 'downcast_table::<%s>()' % ty, props=['C04'], tier='q' if nm in ('u64', 'a8', 'u8') else 't', cost=8)
     add('k1_types', 'downcast_handle_' + nm, 'downcast_handle::<%s>()' % ty, props=['C04', 'C03'], tier='q' if nm in ('i64',) else 't', cost=20)
 add('k1_types', 'splice_mismatch', 'splice_mismatch_h()', props=['C04', 'C06'], tier='q', kind='panic', attrs=['#[kani::should_panic]', '#[kani::unwind(5)]'], allow=TYPE_PANIC, cost=60)
